@@ -198,6 +198,38 @@ def laplacianN (den : Nat) (tf tb : Table) (shape : Nat → Nat) (ndim : Nat) (c
 
 end
 
+/-! ### The inner product of the space (round 4)
+
+`DiscretizedSpace.inner(x, y) = Σ weight(point) · x · conj(y)`, the weight of a grid point being
+the product over the axes of its cell size: `dx a` on `uniform_discr`, but `dx a / 2` for the
+first and last point of an axis when `nodes_on_bdry=True`.  Executed by the driver's `inner`
+op and compared with `x.inner(y)` of the real spaces (stream `inner/…`). -/
+
+section
+variable {K : Type} [Add K] [Mul K] [Div K] [OfNat K 0] [NatCast K]
+
+/-- iterated in-order sum over the listed axes (executable twin of `sumAxes`) -/
+def sumAxesL (shape : Nat → Nat) : List Nat → (IdxN → K) → IdxN → K
+  | [], F, x => F x
+  | a :: as, F, x =>
+    (List.range (shape a)).foldl (fun s k => s + sumAxesL shape as F (x.set a k)) 0
+
+/-- cell size of grid point `k` on axis `a` -/
+def axisWeight (bdry : Bool) (shape : Nat → Nat) (dx : Nat → K) (a k : Nat) : K :=
+  if bdry && (k == 0 || k + 1 == shape a) then dx a / ((2 : Nat) : K) else dx a
+
+/-- weight of the grid point `x`: product of its cell sizes over the axes `0..ndim-1` -/
+def cellWeight (w : Nat → Nat → K) (ndim : Nat) (x : IdxN) : K :=
+  (List.range ndim).foldl (fun acc a => acc * w a (x a)) ((1 : Nat) : K)
+
+/-- `X.inner(Y)`; `conj` is the identity for real spaces -/
+def innerN (w : Nat → Nat → K) (shape : Nat → Nat) (ndim : Nat) (conj : K → K)
+    (X Y : IdxN → K) : K :=
+  sumAxesL shape (List.range ndim) (fun x => cellWeight w ndim x * (X x * conj (Y x)))
+    (fun _ => 0)
+
+end
+
 /-! ### `.adjoint` and `.derivative` of the four classes (which instance is returned) -/
 
 inductive Kind | pd | grad | div | lap
